@@ -115,6 +115,9 @@ def choked (s : State) (peerFast : Bool) (order : List Nat) : State :=
 /-- `Rejected(begin, length)`. -/
 def rejected (s : State) (begin length : Nat) : State × Bool :=
   if !findBlock s begin length then (s, false)
+  -- a reject for a block with no request outstanding (rejected twice, or never requested): nothing to put back
+  -- (fix for finding C17-F5 — it used to be appended to `remaining` every time, and was then requested twice)
+  else if !s.pending.contains begin then (s, true)
   else ({ s with pending := setDelete s.pending begin, remaining := s.remaining ++ [begin] }, true)
 
 /-- The `for _, begin := range remaining` loop of `RequestBlocks`.  `snap` is what is left of
